@@ -1195,7 +1195,13 @@ class Interp:
             if p.patterns:
                 return None                       # positional sub-patterns (__match_args__) are not modelled
             ok = None
-            if isinstance(k, type) and (_plain(v) and not isinstance(v, (TextObj, TokStr))):
+            if isinstance(k, M.External) and k.name.split('.')[-1] in _ABCS and k.name.split('.')[0] in ('collections', 'typing', k.name.split('.')[-1]):
+                k = _ABCS[k.name.split('.')[-1]]          # case Sequence(): the abstract base classes of the library
+                if isinstance(v, Obj) and isinstance(v.cls, M.ClassInfo) and not any(isinstance(b, M.External) for b in self.model.mro(v.cls)):
+                    ok = False if k not in (_abc.Hashable, _abc.Sized, _abc.Iterable, _abc.Callable) else None
+            if ok is not None:
+                pass
+            elif isinstance(k, type) and (_plain(v) and not isinstance(v, (TextObj, TokStr))):
                 ok = isinstance(v, k)
             elif isinstance(k, M.ClassInfo) and isinstance(v, Obj) and isinstance(v.cls, M.ClassInfo) and self.model is not None:
                 ok = k in self.model.mro(v.cls)
@@ -1257,8 +1263,42 @@ class Interp:
             outs.setdefault('raise', []).append((st, st.env.pop('__exc')))
         return self._with_tail(n, outs, supp)
 
-    def _is_contextmanager(self, fnode):
-        return any(_text(d).split('.')[-1] == 'contextmanager' for d in getattr(fnode, 'decorator_list', []))
+    def _decorated(self, node, scope, what):
+        """Is the class / function definition `node` decorated by <what> (dataclass, contextmanager), under whatever name it was imported?"""
+        for d in getattr(node, 'decorator_list', []):
+            f = d.func if isinstance(d, ast.Call) else d
+            if _text(f).split('.')[-1] == what:
+                return d
+            if self.model is not None and scope is not None and isinstance(f, (ast.Name, ast.Attribute)):
+                try:
+                    r = self.model.resolve_expr(scope, f)
+                except Exception:
+                    r = None
+                if isinstance(r, M.External) and r.name.split('.')[-1] == what:
+                    return d
+        return None
+
+    def _is_contextmanager(self, fnode, scope=None):
+        if scope is None and self.model is not None:
+            scope = self.__dict__.setdefault('_fnode_scope', {}).get(id(fnode))
+            if scope is None:
+                for f_ in self._all_function_infos():
+                    self._fnode_scope[id(f_.node)] = f_
+                scope = self._fnode_scope.get(id(fnode))
+        return self._decorated(fnode, scope, 'contextmanager') is not None
+
+    def _all_function_infos(self):
+        out = []
+        for mod in self.model.modules.values():
+            out.extend(mod.functions.values())
+            stack = list(mod.classes.values())
+            while stack:
+                k = stack.pop()
+                out.extend(k.methods.values())
+                for p_ in k.properties.values():
+                    out.extend(p_.values())
+                stack.extend(k.nested.values())
+        return out
 
     def _cm_enter(self, v, s, n, idx):
         """Entering a context manager of the analysed code: a @contextmanager generator runs up to its yield, an object of a
@@ -4462,6 +4502,19 @@ class Interp:
                             a = TOP
                     conv.append(a)
                 args = conv
+        if isinstance(n.func, ast.Attribute) and n.func.attr == '__init__' and not kwargs and self.model is not None and self.heap \
+           and isinstance(getattr(self.scope, 'cls', None), M.ClassInfo):
+            fv_ = n.func.value
+            is_super = isinstance(fv_, ast.Call) and isinstance(fv_.func, ast.Name) and fv_.func.id == 'super' and not fv_.args and not args
+            is_base = isinstance(fv_, ast.Name) and fv_.id in ('dict', 'list', 'object', 'set') and fv_.id not in s.env and len(args) == 1 \
+                and args[0] is s.env.get('self')
+            if is_super or is_base:
+                me_ = s.env.get('self')
+                start_ = me_.cls if isinstance(me_, Obj) and isinstance(me_.cls, M.ClassInfo) else self.scope.cls
+                mro_ = list(self.model.mro(start_))
+                rest_ = mro_[mro_.index(self.scope.cls) + 1:] if self.scope.cls in mro_ else None
+                if rest_ is not None and not any(isinstance(k_, M.ClassInfo) and '__init__' in k_.methods for k_ in rest_):
+                    return None           # the constructor of a builtin / library base, without arguments: nothing that is modelled changes
         if fname == 'object' and 'object' not in s.env and not args and not kwargs and isinstance(n.func, ast.Name):
             # a fresh marker object (nothing = object()): identical to itself only
             k_ = self.__dict__.setdefault('_fresh_markers', [0])
@@ -4913,7 +4966,7 @@ class Interp:
             return cache[cls.fullname]
 
         def is_dc(k):
-            return any(_text(d).split('(')[0].split('.')[-1] == 'dataclass' for d in getattr(k.node, 'decorator_list', []))
+            return self._decorated(k.node, k, 'dataclass') is not None
         res = None
         if is_dc(cls):
             fields = {}
@@ -4933,7 +4986,7 @@ class Interp:
             if self.precise_exc:
                 s.env['__exc'] = 'TypeError'
             return True
-        dec = [d for d in cls.node.decorator_list if _text(d).split('(')[0].split('.')[-1] == 'dataclass'][0]
+        dec = self._decorated(cls.node, cls, 'dataclass')
         opts = {k.arg: getattr(k.value, 'value', None) for k in dec.keywords} if isinstance(dec, ast.Call) else {}
         names = []
         for i, (name, default, owner) in enumerate(fields):
@@ -5272,6 +5325,12 @@ def private_only(fname, node, info):
     if info is not None and getattr(info, 'cls', None) is not None and re.match(r'_[A-Za-z]', info.cls.name):
         return True                 # any method of a private helper class (`_Name`) is an implementation detail
     return info is None or (name.startswith('_') and not name.startswith('__'))
+
+
+def helpers_anywhere(fname, node, info):
+    """should_inline filter: private helpers (as private_only) and the module-level functions of the package, wherever they live -
+    the pure helpers that a method is split into."""
+    return private_only(fname, node, info) or (info is not None and getattr(info, 'cls', None) is None)
 
 
 def events(trace, kind=None, name=None):
